@@ -29,15 +29,15 @@ if False:  # pylint: disable=using-constant-test
     from pycdlib import pycdlibio  # NOQA pylint: disable=unused-import
 
 
-def iso_path_to_rr_name(iso_path, interchange_level, is_dir):
+def iso_path_to_rr_name(iso_path, interchange_level, is_dir):  # pylint: disable=unused-argument
     # type: (str, int, bool) -> str
     """
     Take an absolute ISO path and generate a corresponding Rock Ridge basename.
 
     Parameters:
      iso_path - The absolute iso_path to generate a Rock Ridge name from.
-     interchange_level - The interchange level at which to operate.
-     is_dir - Whether this will be a directory or not.
+     interchange_level - The interchange level at which to operate (unused).
+     is_dir - Whether this will be a directory or not (unused).
     Returns:
      The Rock Ridge name as a string.
     """
@@ -48,15 +48,14 @@ def iso_path_to_rr_name(iso_path, interchange_level, is_dir):
     namesplit = utils.split_path(utils.normpath(iso_path))
     iso_name = namesplit.pop()
 
-    if is_dir:
-        rr_name = utils.mangle_dir_for_iso9660(iso_name.decode('utf-8'),
-                                               interchange_level)
-    else:
-        basename, ext = utils.mangle_file_for_iso9660(iso_name.decode('utf-8'),
-                                                      interchange_level)
-        rr_name = '.'.join([basename, ext])
-
-    return rr_name
+    # The ISO9660 identifier that this name is generated for has to be legal
+    # for the interchange level and unique in its directory, or the entry is
+    # refused.  A legal identifier needs no mangling, and the mangling helpers
+    # cannot be given one anyway: they take the file names of another
+    # filesystem, so for them the version is a part of an over-long extension,
+    # which made different identifiers end up with the same Rock Ridge name.
+    # Use the identifier itself, which keeps different identifiers apart.
+    return iso_name.decode('utf-8')
 
 
 class PyCdlibISO9660:
